@@ -1,6 +1,13 @@
 package harness
 
-import "testing"
+import (
+	"testing"
+)
 
-// addC18Failover is replaced when the failover harness is in place.
-func addC18Failover(t *testing.T, e *Env, cf *CaseFile) {}
+// addC18Failover adds steered Failover workloads with a stats tracker to the C18 cases.
+func addC18Failover(t *testing.T, e *Env, cf *CaseFile) {
+	for i := 0; i < e.Pick(150, 1500); i++ {
+		out := GenFailover(t, e.Rng, FOpts{MinGets: 1, MaxGets: 6, Keys: 2, FailRate: 0.35, FaultProb: 0.1, Skip: true})
+		cf.Add("C18F ("+out.Term+")", "failover/"+out.Tag, out.Replay, out.Nontriv && out.Conf.Stat)
+	}
+}
